@@ -3,7 +3,6 @@ package security
 import (
 	"fmt"
 	"regexp"
-	"strings"
 )
 
 // Severity represents the severity level of a security finding.
@@ -144,10 +143,12 @@ var tautologyPatterns = []*regexp.Regexp{
 
 func (r *TautologyRule) Check(sql string) []Finding {
 	var findings []Finding
-	upper := strings.ToUpper(sql)
 	for _, pat := range tautologyPatterns {
-		for _, loc := range pat.FindAllStringIndex(upper, -1) {
-			// Verify it's actually a match on original (case insensitive regex already handles this)
+		// The patterns are case-insensitive, so they are matched on the text itself:
+		// offsets found in an upper-cased copy do not fit the original when upper-casing
+		// changes a byte length (invalid UTF-8, letters such as U+0149), which made the
+		// slice below panic or cut the wrong bytes.
+		for _, loc := range pat.FindAllStringIndex(sql, -1) {
 			matched := sql[loc[0]:loc[1]]
 			findings = append(findings, Finding{
 				RuleID:   r.ID(),
